@@ -11,9 +11,16 @@ import Lean
   Audit tooling only: nothing in Model/, Spec/, Proofs/ or Props/ imports this file.
 -/
 open Lean in
-def GcArenaAudit.inScope (n : Name) : Bool :=
-  let s := n.toString
-  (s.startsWith "GcArena" || s.startsWith "_private.GcArena") && !(s.startsWith "GcArena.Generated")
+/-- A constant is followed iff it was declared in a module of this library other than the eight
+    regenerated table modules (decided by the declaring MODULE, not by the constant's name). -/
+def GcArenaAudit.inScope (env : Environment) (n : Name) : Bool :=
+  match env.getModuleIdxFor? n with
+  | none => false
+  | some idx =>
+    let m := (env.header.moduleNames[idx.toNat]!).toString
+    m.startsWith "GcArena." && !(["GcArena.Generated.BrandTable", "GcArena.Generated.BrandFlow",
+      "GcArena.Generated.CallGraph", "GcArena.Generated.CollectTable", "GcArena.Generated.DerefWriteTable",
+      "GcArena.Generated.MacroImpls", "GcArena.Generated.PacingConsts", "GcArena.Generated.SigTable"].contains m)
 open Lean in
 /-- Hash of a theorem's statement together with every GcArena definition it (transitively) mentions
     (proofs excluded, generated tables excluded). -/
@@ -26,7 +33,7 @@ def GcArenaAudit.stmtHash (env : Environment) (root : Name) : UInt64 := Id.run d
   while i < todo.size do
     let c := todo[i]!
     i := i + 1
-    if seen.contains c || !GcArenaAudit.inScope c then continue
+    if seen.contains c || !GcArenaAudit.inScope env c then continue
     seen := seen.insert c
     match env.find? c with
     | none => pure ()
@@ -55,4 +62,5 @@ elab "#stmt_hash " ids:ident+ : command => do
   let env ← getEnv
   for id in ids do
     let n := id.getId
+    unless env.contains n do throwError "#stmt_hash: unknown constant {n}"
     logInfo m!"STMT {n} {GcArenaAudit.stmtHash env n}"
